@@ -1752,7 +1752,7 @@ func (ex *Exec) havocUnder(st *State, root *Term) {
 // objectRoot: the object denoted by `x` in a frame item `x.*`: the pointee of a pointer, the
 // dynamic value of an interface, or the heap cell of an addressable (escaping) local variable.
 func (ex *Exec) objectRoot(env *SpecEnv, pc *parsedClause) (root *Term) {
-	t := pc.info.Types[pc.expr].Type
+	t := env.resolve(pc.info.Types[pc.expr].Type)
 	ex.spec++
 	defer func() { ex.spec-- }()
 	switch t.Underlying().(type) {
